@@ -310,3 +310,26 @@ def run_case(acc, judge, prop, source, spec, op_factory=None, case_no=0):
                 acc.fail(cls2, "no-exception", "FMEstimatedConfigurationsNumber.get_configurations_number", tags2,
                          f"raises:{type(e).__name__}", str(e)[:200], payload2)
         judge(acc, "history:edit-in-place", es, model, idx2, sem_t2, sem_c2, tags2, cls2, payload2, op)
+    # history: the model is analysed while still under construction (one child attached with Relation.add_child,
+    # its parent pointer not yet set), then the pointer is set and the same operation object analyses it again
+    if op is not None and case_no % 5 == 1 and len(S.feature_names(spec)) >= 2:
+        r = rand.rng("semops-construct", S.digest(spec))
+        m2 = S.build(spec)
+        kids = []
+        stack = [m2.root]
+        while stack:
+            f = stack.pop()
+            for rel in f.relations:
+                for c in rel.children:
+                    kids.append((f, c))
+                    stack.append(c)
+        owner, child = r.choice(kids)
+        child.parent = None
+        try:
+            op.execute(m2).get_result()
+        except Exception:  # noqa: BLE001 - the half-built model is outside the property's domain
+            pass
+        child.parent = owner
+        cls3 = "history:parent-pointer-set-later" + ("|" + "+".join(tags) if tags else "")
+        judge(acc, "history:parent-pointer-set-later", spec, m2, idx, sem_t, sem_c, tags, cls3,
+              dict(payload, history=f"parent of {child.name} set after a first analysis"), op)
